@@ -41,7 +41,7 @@ KF = 'C16-air-vector-components-swapped'
 
 
 def plan(tier, seed):
-    per = 20 if tier == 'quick' else 2500
+    per = 20 if tier == 'quick' else 400
     return [{'seed': seed * 1000 + i, 'n': per} for i in range(16)]
 
 
